@@ -44,10 +44,10 @@ def concretise(scs, lits) -> str:
         if ck == "function":
             out += [f"def f{i}({ps}): ...", ""]
         else:
-            recv = {"method": "self", "ctor": "self", "classmethod": "cls", "static": "", "starmethod": "", "starctor": ""}[ck]
+            recv = {"method": "self", "ctor": "self", "classmethod": "cls", "static": "", "starmethod": "", "starctor": "", "newmethod": "cls"}[ck]
             full = ", ".join(x for x in (recv, ps) if x)
             deco = {"static": "    @staticmethod\n", "classmethod": "    @classmethod\n"}.get(ck, "")
-            name = "__init__" if ck in ("ctor", "starctor") else "m"
+            name = "__init__" if ck in ("ctor", "starctor") else "__new__" if ck == "newmethod" else "m"
             out += [f"class K{i}:", f"{deco}    def {name}({full}): ...", ""]
     return "\n".join(out)
 
@@ -70,8 +70,9 @@ def observe(sc, stubs: Stubs, idx) -> dict:
             decl = cls
             fid = f"{PKG}/{MOD}/K{i}/__init__"
         else:
-            decl = member(cls, "m", "fun")
-            fid = f"{PKG}/{MOD}/K{i}/m"
+            mname = "__new__" if ck == "newmethod" else "m"
+            decl = member(cls, mname, "fun")
+            fid = f"{PKG}/{MOD}/K{i}/{mname}"
     if decl is None or decl.params is None:
         return none
     fj = idx.get("functions", {}).get(fid)
